@@ -1214,8 +1214,15 @@ def call_method(it, v, name, args, kwargs):
         return argparser_method(it, v, name, args, kwargs)
     if isinstance(v, OpaqueVal):
         env = getattr(ctx, 'env', None)
-        if env is not None and hasattr(env, 'opaque_method'):
+        if env is not None and hasattr(env, 'opaque_method') and v.tag != 'val':
             return env.opaque_method(it, v, name, args, kwargs)
+        if v.tag == 'val' and v.term.sort() == _seq.Val and not kwargs and name in ('strip', 'rstrip', 'lstrip', 'upper', 'lower',
+                                                                                  'title', 'replace', 'zfill', 'ljust', 'rjust'):
+            # a text method applied to a value taken out of a decoded document: a function of (value, method, arguments)
+            ctx.assumed_models.add("str methods on a value of a decoded document: function of (value, method name, arguments)")
+            t = ufun('v_method', _seq.Val, PyStr, _seq.Val, _seq.Val)(v.term, ops.lit(name) if hasattr(ops, 'lit') else str_term(name),
+                                                                     _seq.list_term(list(args)))
+            return OpaqueVal(t, 'val')
         raise Unsupported("method %s of opaque %s" % (name, v.tag))
     if is_str(v):
         return str_method(it, v, name, args, kwargs)
